@@ -9,7 +9,9 @@ import (
 	"sync"
 	"time"
 
+	"github.com/tinode/chat/server/auth"
 	rh "github.com/tinode/chat/server/ringhash"
+	"github.com/tinode/chat/server/store/types"
 )
 
 // C17 (election part): local lemmas on the real Cluster.electLeader and one iteration of
@@ -259,5 +261,40 @@ func Harness_C17_partitioned() {
 	c.fo.activeNodes = make([]string, k)
 	n := nOthers + 1
 	verifAssert(c.isPartitioned() == (2*k <= n), "partitioned-iff-at-most-half-of-the-nodes-reachable")
+	verifReach("end")
+}
+
+// The ring-signature gate on inter-node topic traffic: a request from a proxy node whose ring differs from the
+// master's is rejected and reaches neither the hub nor a topic - on every request, not only on the first one
+// for a (topic, node) pair.
+func Harness_C17_topic_master_signature_gate() {
+	c := verifCluster(2)
+	hub := globals.hub
+	sig := c.ring.Signature()
+	match := verifNondetBool("signaturesMatch")
+	reqSig := sig
+	if !match {
+		reqSig = "stale-ring-signature"
+	}
+	topic := "grpAAAAAAAAAAB"
+	// the multiplexing session for (topic, node b) may exist already from earlier traffic
+	if verifNondetBool("multiplexingSessionExists") {
+		msess, _ := globals.sessionStore.NewSession(c.nodes["b"], topic+"-b")
+		msess.proxiedTopic = topic
+		c.nodes["b"].msess[topic+"-b"] = struct{}{}
+	}
+	cli := &ClientComMessage{Id: "r1", Original: topic, RcptTo: topic, AsUser: types.Uid(5).UserId(), AuthLvl: int(auth.LevelAuth),
+		Timestamp: types.TimeNow(), Sub: &MsgClientSub{Id: "r1", Topic: topic}}
+	req := &ClusterReq{Node: "b", Signature: reqSig, RcptTo: topic, ReqType: ProxyReqJoin, CliMsg: cli,
+		Sess: &ClusterSess{Sid: "sid-remote", Uid: types.Uid(5), AuthLvl: auth.LevelAuth}}
+	rejected := false
+	err := c.TopicMaster(req, &rejected)
+	verifAssert(err == nil, "topic-master-returns")
+	verifAssert(rejected == !match, "mismatching-ring-signature-is-rejected-and-only-that")
+	if !match {
+		verifAssert(len(hub.join) == 0 && len(hub.routeCli) == 0 && len(hub.unreg) == 0 && len(hub.meta) == 0, "rejected-inter-node-request-reaches-nothing")
+	} else {
+		verifAssert(len(hub.join) == 1, "accepted-join-forwarded-to-the-hub")
+	}
 	verifReach("end")
 }
